@@ -8,7 +8,7 @@ FAMS = ["seq2", "seq3", "alt2", "altseq", "seqalt", "grpq", "grpq2", "ncgq", "an
 
 def leg(ctx, res, alpha, maxlen, stride, offset, label):
     params = {"families": FAMS, "dia": "re2", "rtl": False, "alpha": alpha, "maxlen": maxlen, "stride": stride, "offset": offset,
-              "variants": [{"spelling": "plain", "so": [], "o": []}]}
+              "variants": [{"spelling": "plain", "so": [], "o": []}], "nonnull": True}
     ppath = os.path.join(ctx.dir, f"params-{label}.json")
     json.dump(params, open(ppath, "w"))
     out = ctx.tlc("Gen_Find", "Obs.cfg", env_extra={"VERIF_PARAMS": ppath}, timeout=3000)
